@@ -49,10 +49,10 @@ impl Fiber {
     }),
     final(self).frames == old(self).frames, final(self).exception_handlers == old(self).exception_handlers, final(self).state == old(self).state, final(self).resume == old(self).resume
   { }
-  /// the backtrace strings (frame_line per frame): text, not verified
-  #[verifier::external_body]
-  pub fn verif_error_backtrace(&self, handler: &ExceptionHandler) -> (r: Vec<String>) { Vec::new() }
 }
+/// frame_line(fun, at): `path:line in name()` with line = get_line(at) — the text is not verified, which offset it is looked up at is
+pub uninterp spec fn line_str(frame: CallFrame, at: int) -> Seq<char>;
+#[verifier::external_body] pub fn verif_frame_line_str(frame: &CallFrame, at: usize) -> (r: String) ensures r@ == line_str(*frame, at as int) { String::new() }
 
 // ---- print_error (C18) ----------------------------------------------------------------------------------------------------------
 impl CallFrame { #[verifier::external_body] pub fn ip(&self) -> (r: IpPtr) ensures ip_val(r) == frame_ip(*self) { IpPtr { p: 0 } } }
